@@ -272,7 +272,7 @@ fn sweep_type<T: Custom>(ctx: &Ctx, c: &Counts) {
     let ops: Vec<i128> = if all { (T::MINV..=T::MAXV).collect() } else { lattice::<T>(w) };
     // constructors
     let reps: Vec<i128> = if all { (T::REP_MIN..=T::REP_MAX).collect() } else { rep_lattice::<T>(ctx.tier.pick(4096, 1 << 16)) };
-    guard::enter(&case_json(ty, "new", 0, 0).to_string());
+    let _guard_scope = guard::scoped(&case_json(ty, "new", 0, 0).to_string());
     for &v in &reps {
         for kind in ["new", "from_rep"] {
             c.evals.fetch_add(1, Relaxed);
@@ -289,7 +289,7 @@ fn sweep_type<T: Custom>(ctx: &Ctx, c: &Counts) {
     ctx.set(&format!("{ty}.operands_complete"), json!(all));
     let kinds: Vec<&str> = if T::HAS_NEG { vec!["add", "sub", "mul", "ord", "neg"] } else { vec!["add", "sub", "mul", "ord"] };
     ops.par_iter().for_each(|&a| {
-        guard::enter(&case_json(ty, "row", a, 0).to_string());
+        let _guard_scope = guard::scoped(&case_json(ty, "row", a, 0).to_string());
         let mut local = 0u64;
         let mut fps = Vec::new();
         for kind in &kinds {
@@ -342,7 +342,7 @@ fn widen(ctx: &Ctx, c: &Counts) {
         // primitive source, complete domain
         ($T:ty, prim $U:ty) => {{
             let name = concat!(stringify!($T), "<-", stringify!($U));
-            guard::enter(&json!({"type": stringify!($T), "kind": "widen", "from": stringify!($U)}).to_string());
+            let _guard_scope = guard::scoped(&json!({"type": stringify!($T), "kind": "widen", "from": stringify!($U)}).to_string());
             let lo = <$U>::MIN as i128;
             let hi = <$U>::MAX as i128;
             let complete = hi - lo <= (1 << 16) || ctx.thorough();
@@ -380,7 +380,7 @@ fn widen(ctx: &Ctx, c: &Counts) {
         // custom source, complete domain
         ($T:ty, cust $U:ty) => {{
             let name = concat!(stringify!($T), "<-", stringify!($U));
-            guard::enter(&json!({"type": stringify!($T), "kind": "widen", "from": stringify!($U)}).to_string());
+            let _guard_scope = guard::scoped(&json!({"type": stringify!($T), "kind": "widen", "from": stringify!($U)}).to_string());
             let vals: Vec<i128> = (<$U as Custom>::MINV..=<$U as Custom>::MAXV).collect();
             let bad = vals.par_iter().find_first(|&&v| <$T>::from(<$U as Custom>::unchecked(v)).val() != v);
             c.evals.fetch_add(vals.len() as u64, Relaxed);
@@ -445,7 +445,7 @@ fn main() {
                 eprintln!("note: artefact was recorded in profile {p}");
             }
         }
-        guard::enter(&v.to_string());
+        let _guard_scope = guard::scoped(&v.to_string());
         ctx.finish_replay(dispatch(ty, kind, a, b));
     }
     guard::set_hang_secs(120);
